@@ -11,10 +11,10 @@ open List
 variable {S : Type}
 
 /-- the characters with a `singleKind` -/
-def singleChars : List Char :=
+def singleCharsD : List Char :=
   ['\n', ';', '(', ')', '[', ']', '⌈', '⌉', '⌊', '⌋', '+', '-', '/', '*', '^', '!', '|', '%', ',', '=', '√', '•', '×']
 
-theorem singleKind_none_of {c : Char} (h : ∀ d ∈ singleChars, c ≠ d) :
+theorem singleKind_none_ofD {c : Char} (h : ∀ d ∈ singleCharsD, c ≠ d) :
     singleKind (S := S) c = none := by
   rw [singleKind,
     if_neg (h '\n' (by decide)),
@@ -42,20 +42,20 @@ theorem singleKind_none_of {c : Char} (h : ∀ d ∈ singleChars, c ≠ d) :
     if_neg (h '×' (by decide))]
 
 theorem singleKind_some {c : Char} {k : Kind S} (h : singleKind (S := S) c = some k) :
-    c ∈ singleChars := by
-  by_cases hc : c ∈ singleChars
+    c ∈ singleCharsD := by
+  by_cases hc : c ∈ singleCharsD
   · exact hc
-  · rw [singleKind_none_of (fun d hd e => hc (by rw [e]; exact hd))] at h; cases h
+  · rw [singleKind_none_ofD (fun d hd e => hc (by rw [e]; exact hd))] at h; cases h
 
 theorem singleKind_classes {c : Char} {k : Kind S} (h : singleKind (S := S) c = some k) :
     isIdentStart c = false ∧ isDigit c = false := by
-  have key : ∀ d ∈ singleChars, isIdentStart d = false ∧ isDigit d = false := by decide
+  have key : ∀ d ∈ singleCharsD, isIdentStart d = false ∧ isDigit d = false := by decide
   exact key c (singleKind_some h)
 
 theorem singleKind_kind {c : Char} {k : Kind S} (h : singleKind (S := S) c = some k) :
     (∀ z, k ≠ .number z) ∧ (∀ w, k ≠ .ident w) := by
   have hc := singleKind_some h
-  simp only [singleChars, mem_cons, not_mem_nil, or_false] at hc
+  simp only [singleCharsD, mem_cons, not_mem_nil, or_false] at hc
   rcases hc with rfl | rfl | rfl | rfl | rfl | rfl | rfl | rfl | rfl | rfl | rfl | rfl | rfl | rfl | rfl | rfl | rfl | rfl | rfl | rfl | rfl | rfl | rfl
   all_goals (cases h; exact ⟨fun _ e => (nomatch e), fun _ e => (nomatch e)⟩)
 
